@@ -1362,6 +1362,8 @@ class StreamWorld(BaseWorld):
             obs = fn(ev)
             if snap is not None:
                 self.check_sharing(ev, snap, groups, obs)
+        if isinstance(obs, str) and obs.startswith(('exc', 'unsupported')) and obs != 'exc-rejected':
+            self.resync_after_failure(ev)
         self.after_step(ev)
         return obs
 
@@ -1486,6 +1488,36 @@ class StreamWorld(BaseWorld):
             self.stats['fault:' + plan['kind']] += 1
         return out
 
+    def detach_view(self, v):
+        """all views of that row keep sharing the (old) row among themselves: they keep their row group,
+        which is cut loose from the parent's group"""
+        self.meta[v]['detached'] = True
+        vg = self.fgroup[v]
+        key = self.vparent.pop(vg, None)
+        if key is not None and self.vgroups.get(key) == vg:
+            del self.vgroups[key]
+
+    def resync_after_failure(self, ev):
+        """An operation that RAISED (not a clean refusal) leaves the streams it writes in an unspecified,
+        possibly half-modified state - the properties promise nothing about them.  Per-phase views of such a
+        stream are re-examined: a view that is no longer the parent's row object has been cut loose."""
+        W = self.written(ev)
+        names = W['f'] | W['t'] | W['p']
+        for v, m in self.meta.items():
+            if not (m.get('view_of') and not m.get('detached') and v in self.streams and m['view_of'][0] in names):
+                continue
+            par, ph = m['view_of']
+            live = False
+            try:
+                P = self.streams[par]
+                if self.is_multi(par) and ph in P.phases:
+                    live = P._imol.data.rows[P._imol._phase_indexer(ph)] is self.streams[v]._imol.data
+            except Exception:
+                live = False
+            if not live:
+                self.stats['view_cut_loose_by_failed_operation'] += 1
+                self.detach_view(v)
+
     def after_step(self, ev):
         """Invariants that hold 'at every moment' for the property under check."""
         # a stream that changed between single- and multi-phase form got a new indexer: it no longer
@@ -1504,13 +1536,7 @@ class StreamWorld(BaseWorld):
                 if par not in self.streams:
                     continue
                 if not self.is_multi(par) or ph not in self.streams[par].phases:
-                    # all views of that row keep sharing the (old) row among themselves: they keep their row
-                    # group, which is cut loose from the parent's group
-                    m['detached'] = True
-                    vg = self.fgroup[v]
-                    key = self.vparent.pop(vg, None)
-                    if key is not None and self.vgroups.get(key) == vg:
-                        del self.vgroups[key]
+                    self.detach_view(v)
                 else:
                     self.fgroup[v] = self.view_group(par, ph)
                     self.tgroup[v] = self.tgroup[par]
